@@ -56,6 +56,10 @@ types.append(record("Defaults", [
     field("dea", arr(prim("int32")), default="[]"), field("da", arr(prim("string")), default=json.dumps(["p", "q"])),
     field("dem", mp(prim("int32")), default="{}"), field("dmm", mp(prim("int64")), default=json.dumps({"k": 3})),
     field("dhb", prim("bytes"), default=json.dumps("\u00ff\u0080a")),
+    # container defaults whose JSON text merely *contains* an empty container
+    field("dnb", arr(prim("string")), default=json.dumps(["[ ]", "{}"])),
+    field("dnm", mp(prim("string")), default=json.dumps({"k": "{}"})),
+    field("dna", arr(arr(prim("int32"))), default="[[]]"),
     field("req", prim("string"))]))
 types.append(record("IncDefaults", [field("own", prim("string"))], includes=["Defaults"]))
 types.append(record("Leaf", [field("v", prim("string")), field("w", prim("int32"), True)]))
